@@ -62,6 +62,7 @@ func genC15(rng *rand.Rand, n int, emit func(Case), dist map[string]int) {
 		var rets []int
 		var streamErr error
 		setCL := false
+		clVal := "12345"
 		var bodySeen []byte
 		var bodyErr error
 		handlerRan := false
@@ -77,7 +78,7 @@ func genC15(rng *rand.Rand, n int, emit func(Case), dist map[string]int) {
 				bodySeen, bodyErr = io.ReadAll(c.Request().Body)
 			}
 			if setCL {
-				c.Response().Header().Set(echo.HeaderContentLength, "12345")
+				c.Response().Header().Set(echo.HeaderContentLength, clVal)
 			}
 			for _, o := range prog {
 				switch o.kind {
@@ -191,6 +192,7 @@ func genC15(rng *rand.Rand, n int, emit func(Case), dist map[string]int) {
 			// ---------------- Gzip
 			prog, rets, streamErr = nil, nil, nil
 			setCL = rng.Intn(4) == 0
+			clVal = []string{"12345", "12345", "5", "3", "0", "1"}[rng.Intn(6)] // (also lengths BELOW the threshold: the handler's figure is for the plain body in any case)
 			var ops []Sx
 			var payload []byte
 			chosen := -1
